@@ -1,3 +1,67 @@
 package main
 
-func selfcheck(verif string) int { return 0 }
+import (
+	"fmt"
+	"go/token"
+)
+
+// selfcheck: cheap sanity tests of the abstract domain itself (run by setup_cmd). The checker's behaviour on
+// seeded violations is exercised by tools/selftest.sh over selftest/mutants and selftest/benign.
+func selfcheck(verif string) int {
+	fails := 0
+	expect := func(name string, ok bool) {
+		if !ok {
+			fails++
+			fmt.Println("SELFCHECK FAIL:", name)
+		}
+	}
+	ex := &Exec{syms: NewSymTab()}
+	st := ex.NewState()
+	x := mkSym(ex.syms.Get("x", 8, false))
+	// bit provenance through mask/shift/or
+	lo := st.Arith(token.AND, x, mkConst(0x0F, 8, false), "")
+	hi := st.Shift(token.SHR, x, 4)
+	back := st.Arith(token.OR, st.Shift(token.SHL, hi, 4), lo, "")
+	expect("(x>>4)<<4 | x&0x0F == x", st.sameInt(back, x))
+	expect("x&0x0F != x in general", !st.sameInt(lo, x))
+	// interval refinement and decision
+	st2 := st.Clone()
+	expect("assume x > 15", st2.Assume(">", x, mkConst(15, 8, false)))
+	v, k := st2.Decide("<=", x, mkConst(15, 8, false))
+	expect("x <= 15 decided false under x > 15", k && !v)
+	_, k = st.Decide("<=", x, mkConst(15, 8, false))
+	expect("x <= 15 undecided without assumption", !k)
+	// affine cancellation
+	y := mkSym(ex.syms.Get("y", 16, true))
+	st.refineSym(y.T.Syms[0], -8192, 8191)
+	u := st.Arith(token.ADD, y, mkConst(8192, 16, true), "")
+	expect("(y+8192)-8192 == y", st.sameInt(st.Arith(token.SUB, u, mkConst(8192, 16, true), ""), y))
+	// wrap detection
+	z := mkSym(ex.syms.Get("z", 8, false))
+	n := len(st.Events)
+	st.Arith(token.MUL, z, mkConst(32, 8, false), "")
+	expect("z*32 in uint8 flagged as possible wrap", len(st.Events) > n && st.Events[len(st.Events)-1].Kind == "wrap")
+	// disequality facts
+	st3 := st.Clone()
+	st3.Assume("!=", x, mkConst(0x80, 8, false))
+	v, k = st3.Decide("==", x, mkConst(0x80, 8, false))
+	expect("x == 0x80 decided false under x != 0x80", k && !v)
+	// spec helpers
+	nn := mkSym(ex.syms.Get("n", 32, false))
+	st.refineSym(nn.T.Syms[0], 128, 16383)
+	bs := vlqSpecBytes(st, nn, 2)
+	l0, h0 := st.Range(bs[0])
+	expect("first VLQ byte of a 2-byte quantity has the continuation bit", l0 >= 0x80 && h0 <= 0xFF)
+	_, h1 := st.Range(bs[1])
+	expect("last VLQ byte has no continuation bit", h1 <= 0x7F)
+	// reference receiver model sanity
+	r := refTransition(refState{9, "chan1", 0}, liveInput{"data", 0, 0x7F}, true)
+	expect("receiver model completes a note-on on the second data byte", len(r.outs) == 1 && r.post.pend == "none" && r.post.rs == 9)
+	r = refTransition(refState{9, "chan1", 0}, liveInput{"status 8n", 0x80, 0x8F}, true)
+	expect("receiver model abandons an incomplete message on a status byte", len(r.outs) == 0 && r.post.pend == "chan0" && r.post.rs == 8)
+	if fails == 0 {
+		fmt.Println("selfcheck: abstract domain and specification helpers OK")
+		return 0
+	}
+	return 1
+}
